@@ -438,9 +438,8 @@ structure SelPost (C : TQContract) (m0 : C05.M) (timeout : Int) (s0 s' : State) 
   tms : m'.tms = m0.tms
   clock : m0.clock ≤ m'.clock
   intr : s'.intr = true → (timeout < 0 ∨ s0.intr = true)
-  alt : s'.intr = true ∨
-        (m'.polled = true ∧ s'.intr = s0.intr ∧
-          (m'.mustFire = true → m0.mustFire = true ∨ (timeout ≠ 0 ∧ (m'.nets.any (·.ready) = true ∨ C05.expired m' = true))))
+  mf : m'.mustFire = true → m0.mustFire = true ∨ (timeout ≠ 0 ∧ (m'.nets.any (·.ready) = true ∨ C05.expired m' = true))
+  alt : s'.intr = true ∨ (m'.polled = true ∧ s'.intr = s0.intr)
 
 theorem envOk_tail {a : PollAns} {q : List PollAns} (h : EnvOk (a :: q)) : EnvOk q :=
   fun b hb adv he => h b (List.mem_cons_of_mem _ hb) adv he
@@ -453,7 +452,7 @@ theorem ok_post (C : TQContract) (s : State) (m : C05.M) (timeout : Int) (adv' :
                      net := { s.net with fds := s.net.fds.map (fun e => { e with rev := maskAns a e }) } }
         (.poll timeout adv' (pollEntries s.net.fds (maskAns a)) .ok)) m' := by
   refine ⟨pollOkM m timeout adv' (pollEntries s.net.fds (maskAns a)), hf, he, ?_, ?_, hstop, rfl, rfl, rfl, rfl, rfl,
-    Nat.le_add_right _ _, fun h => Or.inr h, Or.inr ⟨rfl, rfl, ?_⟩⟩
+    Nat.le_add_right _ _, fun h => Or.inr h, ?_, Or.inr ⟨rfl, rfl⟩⟩
   · show C05.run {} (_ :: s.trace).reverse = _
     rw [run_snoc _ m _ _ hm]; exact step_poll_ok m timeout _ _ hstop hc
   · have r1 := rel_clock hr adv'
@@ -485,7 +484,7 @@ theorem answer_post (C : TQContract) (s : State) (m : C05.M) (timeout : Int) (ad
   · -- stuck: the signal handler requests an interrupt
     rename_i hst
     refine ⟨{ m with clock := m.clock + adv, intr := true }, hf, he, ?_, ?_, hstop, rfl, rfl, rfl, rfl, rfl,
-      Nat.le_add_right _ _, fun _ => Or.inl hst.2, Or.inl rfl⟩
+      Nat.le_add_right _ _, fun _ => Or.inl hst.2, fun h => Or.inl h, Or.inl rfl⟩
     · show C05.run {} (_ :: s.trace).reverse = _
       rw [run_snoc _ m _ _ hm]; exact step_poll_stuck m timeout adv _ hstop hc
     · exact rel_of_eq (rel_intr (rel_rescan (rel_clock hr adv))) rfl rfl rfl rfl rfl rfl rfl
@@ -521,10 +520,10 @@ theorem pollLoop_post (C : TQContract) (timeout : Int) : ∀ (q : List PollAns) 
       split
       · rename_i hi
         exact ⟨m, hf, envOk_tail he, hm1, rel_of_eq (rel_rescan hr1) rfl rfl rfl rfl rfl rfl rfl, hstop, rfl, rfl, rfl, rfl, rfl,
-          Nat.le_refl _, fun h => Or.inr h, Or.inl hi⟩
+          Nat.le_refl _, fun h => Or.inr h, fun h => Or.inl h, Or.inl hi⟩
       · obtain ⟨m', hp⟩ := ih (emit { s with clock := s.clock + 0, pollq := rest }
             (.poll timeout 0 (pollEntries s.net.fds (fun _ => {})) .eintr)) m hf (envOk_tail he) hm1 hr1 hstop hc
-        exact ⟨m', hp.fault, hp.env, hp.run, hp.rel, hp.stop, hp.fired, hp.sr, hp.si, hp.imms, hp.tms, hp.clock, hp.intr, hp.alt⟩
+        exact ⟨m', hp.fault, hp.env, hp.run, hp.rel, hp.stop, hp.fired, hp.sr, hp.si, hp.imms, hp.tms, hp.clock, hp.intr, hp.mf, hp.alt⟩
 
 
 /-! ### the three `get`s -/
